@@ -360,7 +360,10 @@ macro_rules! tgen_leaf {
     };
 }
 tgen_leaf!(D, |t, _g| D(ir::gen_f64(t)));
-tgen_leaf!(String, |t, g| ir::gen_string(t, g.wild, 12));
+tgen_leaf!(String, |t, g| {
+    let max = *t.pick(&[4u64, 12, 12, 12, 80, 1500]);
+    ir::gen_string(t, g.wild, max)
+});
 tgen_leaf!(i32, |t, _g| ir::gen_i32(t));
 tgen_leaf!(i64, |t, _g| t.bits() as i64);
 tgen_leaf!(bool, |t, _g| t.chance(1, 2));
@@ -370,7 +373,11 @@ tgen_leaf!(Uuid, |t, _g| Uuid::from_u128(((t.bits() as u128) << 64) | t.bits() a
 tgen_leaf!(ResourceIdentifier, |t, _g| ResourceIdentifier::new(&ir::gen_rid_string(t, None)).unwrap());
 tgen_leaf!(BearerToken, |t, _g| BearerToken::new(&ir::gen_token_string(t, None)).unwrap());
 tgen_leaf!(DateTime<Utc>, |t, _g| ir::gen_datetime_string(t).parse().unwrap());
-tgen_leaf!(ByteBuf, |t, _g| ByteBuf::from(ir::gen_bytes(t, 12)));
+tgen_leaf!(ByteBuf, |t, _g| {
+    // heavy-tailed: encoders that work in blocks must also meet values longer than a block
+    let max = *t.pick(&[4u64, 12, 12, 12, 100, 1100, 3200, 9000]);
+    ByteBuf::from(ir::gen_bytes(t, max))
+});
 tgen_leaf!(Color, |t, _g| *t.pick(&[Color::Red, Color::Green, Color::BlueGreen]));
 
 impl<T: TGen> TGen for Option<T> {
@@ -428,7 +435,7 @@ macro_rules! family {
                 $(#[serde(default, skip_serializing_if = "Option::is_none")] pub $xa: Option<Extra>,)?
                 pub d: D,
                 pub b: ByteBuf,
-                $(#[serde(default, skip_serializing_if = "Option::is_none")] pub $xm: Option<Extra>,)?
+                $(#[serde(default, rename = "xm\"mid\\dle\n", skip_serializing_if = "Option::is_none")] pub $xm: Option<Extra>,)?
                 pub s: String,
                 pub i: i32,
                 pub l: i64,
@@ -1165,13 +1172,14 @@ impl PipeEngine {
         ctx.log(|| format!("skewed peer mode={:?} extras={:?} bytes={:?}", mode, g.extras_placed, show(&bytes)));
         // members drawn under a map key that a later duplicate key replaced never reach the wire
         let on_wire = |n: &str| bytes.windows(n.len()).any(|w| w == n.as_bytes());
-        let has_extras = ["xa_first", "xm_middle", "xz_last"].iter().any(|n| on_wire(n));
+        // (the Leaf's middle member is spelled with characters JSON has to escape)
+        let has_extras = ["xa_first", "xm_middle", "xz_last", "xm\\\"mid\\\\dle\\n", "xm\"mid\\dle\n"].iter().any(|n| on_wire(n));
         if has_extras {
             ctx.count("fault.version_skew_fired");
             ctx.count_n("probe.unknown_members_injected", g.extras_placed.len() as u64);
             ctx.mark_nontrivial();
         }
-        self.c05_check::<plain::Tree>(ctx, mode, &bytes, &expected, &["xa_first", "xm_middle", "xz_last"], has_extras, faults, "model::Tree");
+        self.c05_check::<plain::Tree>(ctx, mode, &bytes, &expected, &["xa_first", "xm_middle", "xz_last", "xm\"mid\\dle\n"], has_extras, faults, "model::Tree");
     }
 
     #[allow(clippy::too_many_arguments)]
@@ -1272,7 +1280,11 @@ impl PipeEngine {
             ctx.violation("HARNESS", "generated_doc_rejected", format!("{} :: {}", name, clip(&text)));
             return;
         };
-        let field = format!("zzExtra{}", ctx.draw(1000));
+        // sometimes a member name JSON must write with escapes (then it cannot be borrowed from the input)
+        let field = match ctx.draw(3) {
+            0 => format!("zz\"Ex\\tra\n{}", ctx.draw(1000)),
+            _ => format!("zzExtra{}", ctx.draw(1000)),
+        };
         let n_extra = 1 + ctx.draw(3) as usize;
         let mode = if ctx.chance(1, 2) { Mode::Json } else { Mode::Smile };
         ctx.sig(name);
